@@ -29,7 +29,7 @@ Definition pairs_ok (sc : scenario) (before o : out) : bool :=
                             match action_on_key sc ca ea k, action_on_key sc cb eb k with
                             | Some aa, Some ab =>
                                 match state_at ca ea aa o, state_at cb eb ab o with
-                                | Some sa, Some sb => state_eqb sa SFired && state_eqb sb SNone
+                                | Some sa, Some sb => negb (state_eqb sa SNone) && state_eqb sb SNone      (* the winner is Fired, or Ongoing under a Hold *)
                                 | _, _ => false
                                 end
                             | _, _ => true
